@@ -4,7 +4,7 @@ import vlib, suites
 
 RULE = ("hook-level grid: every rule constructor x boundary parameter values x first/caller x boundary-biased "
         "registers x readable/holed/empty readers; API level: valid DWARF modules of the three presentations "
-        "probed at every FDE boundary +-1 with both address kinds. A case is non-trivial when it executes a rule "
+        "probed at every FDE boundary +-1 with both address kinds; valid PE and Mach-O modules at every instruction boundary with boundary-value registers. A case is non-trivial when it executes a rule "
         "or the generic path; distinct = distinct (arch, rule constructor or presentation, first/caller, reader class).")
 ASSUMPTIONS = ["stack reader is a pure partial function", "overflow-checked (debug) build is what the model mirrors; "
                "release build run in the thorough tier", "valid modules: sections produced by the encoders in gen/fhgen.py"]
@@ -46,6 +46,30 @@ def generate(rng, tier):
             s.add("unwind U C %s %s %s %s" % (mode, hx(addr), petruth.script_regs(addr, regs), rng.choice(["S", "S", "E"])),
                   tag="pe:%s:%s:%s" % (f.shape, phase, mode))
         out.append(("pe-valid-%d" % w, s))
+    # valid Mach-O modules (programs of C02's generator), every instruction boundary, boundary-value registers
+    import machotruth as mt
+    from fhgen import M64
+    for w in range(4 if tier == "quick" else 60):
+        arch = "x86" if w % 2 == 0 else "a64"
+        s = Script(arch, "may" if w % 4 < 2 else "must")
+        prog = mt.make_program(rng, arch, 6)
+        base = 0x100000000 + 0x10000 * rng.below(256)
+        mt.module_macho(s, "M", prog, base, 0x100000000, rng, merge=rng.chance(1, 2))
+        s.add("new U"); s.add("add U M"); s.add("newcache C")
+        lo = 0x10000 * rng.range(1, 0xfff)
+        s.mem("S", [(lo + 8 * i, rng.choice([0, lo + 8 * rng.below(0x100), rng.u64(), base + 0x1000 + rng.below(0x400)])) for i in range(0x100)])
+        s.mem("E", [])
+        pts = [(f, off) for f in prog["funcs"] for (off, insn, ph) in f.insns] + [(None, prog["stubs"][0]), (None, prog["helper"][0] + 4), (None, 0x10)]
+        for _ in range(120 if tier == "quick" else 300):
+            f, off = rng.choice(pts)
+            rva = (f.start + off) if f is not None else off
+            mode = rng.choice(["ip", "ra"])
+            addr = base + rva + (1 if mode == "ra" else 0)
+            v = lambda: rng.choice([rng.choice(BOUNDARY), lo + 8 * rng.below(0x100), rng.u64()])
+            regs = s.regs_x86(addr, v(), v()) if arch == "x86" else s.regs_a64(rng.choice([M64, (1 << 48) - 1]), v(), v(), v())
+            s.add("unwind U C %s %s %s %s" % (mode, hx(addr), regs, rng.choice(["S", "S", "E"])),
+                  tag="macho:%s:%s:%s" % (arch, f.shape if f else "stub", mode))
+        out.append(("macho-valid-%d" % w, s))
     return out
 
 def k_s5_dep(script, ln, impl_line, desc):
